@@ -343,6 +343,9 @@ func c04Check(w *e.World, st *e.Step, pr *Prog, direct *PCall, pre, post *evmSna
 				continue
 			}
 			w.Stats.Probe("grant_lifecycle_checked")
+			if direct.M == "decreaseAllowance" && want == "" && has && after == "0" {
+				continue // decreasing to exactly zero may keep a grant that allows nothing
+			}
 			if (want == "") != !has || (has && want != after && !(unl && after == "unlimited")) {
 				return e.Violatef("precompile-authority", "grant-lifecycle-wrong:"+direct.M, "%s by %s for %s: grant was %q, is %q, expected %q", direct.M, signer, key, before, after, want)
 			}
